@@ -79,6 +79,14 @@ func SetEdns0(req *dns.Msg, policy *ecs.Policy, client netip.Addr) (*dns.OPT, in
 		// the old backing array be GC'd with the request.
 		opt.Option = nil
 
+		// A message holds one OPT (RFC 6891 §6.1.1) and IsEdns0 settled on
+		// the last one. Any other OPT in the additional section is still the
+		// client's, options and all, and the section travels upstream as a
+		// whole — so "every option" has to mean every OPT record too. The
+		// ordinary single-OPT request is returned by filterOut untouched.
+		keep := dns.RR(opt)
+		req.Extra = filterOut(req.Extra, func(rr dns.RR) bool { return isOPT(rr) && rr != keep })
+
 		// If the policy allows ECS forwarding for this client, put a
 		// clamped copy of the client's option back on. Clamp() handles
 		// source-prefix ceiling, address truncation, and family sanity;
